@@ -339,12 +339,16 @@ def check(ctx):
     nd = [f for f in funcs if f.name == "normalize_dtype"]
     if not nd:
         raise AnchorMissing("normalize_dtype registration")
+    n_str = 0
     for r in returns(nd[0]):
-        if unparse(r.value).endswith(".str"):
+        if any(isinstance(x, ast.Attribute) and x.attr == "str" for x in ast.walk(r.value)):
+            n_str += 1
             facts = {(unparse(e), pol) for e, pol in cfg_of(nd[0]).facts(r)}
             ok = ("dtype.kind == 'V'", False) in facts or ("dtype.fields is None", True) in facts
             ctx.ob("INJ.dtype", r, "normalize_dtype returns dtype.str only for non-void dtypes", ok, "" if ok else "dtype.str of a structured or sub-array dtype is '|V<itemsize>': dtypes differing in field names/types/offsets share a token (and arrays created with them share names)")
-    ok = any(not unparse(r.value).endswith(".str") for r in returns(nd[0]))
+    ctx.count("dtype_str_returns", n_str)
+    ctx.floor("dtype_str_returns", 1)
+    ok = any(not any(isinstance(x, ast.Attribute) and x.attr == "str" for x in ast.walk(r.value)) for r in returns(nd[0]))
     ctx.ob("INJ.dtype.void", nd[0], "void (structured / sub-array) dtypes are tokenized by their full description", ok)
     # ---------------- TAB.type-tag
     tags = {}
